@@ -154,3 +154,31 @@ def _bad_chunksize(xs, c):
     except ValueError:
         return True
     return False
+
+
+_EXC_VALUES = [ValueError("returned, not raised"), KeyError("k"), StopIteration(), None, 0, (), ""]
+
+
+def _ident(x):
+    return x
+
+
+def check_map_odd_values(kinds: List[int], c: int) -> bool:
+    """
+    pre: len(kinds) <= 4 and all(0 <= k <= 7 for k in kinds) and 1 <= c <= 5
+    post: _
+    """
+    # results are values, whatever they are: exception *instances* returned by fn (the safe-call idiom), None,
+    # falsy values and empty containers come back in order, as themselves, for every chunk size
+    c = _small(c, 5)
+    xs = [(_EXC_VALUES[k] if k < 7 else 17) for k in (_small(k, 7) for k in kinds)]
+    chunks = list(_get_chunks(c, xs))
+    results = [_process_chunk(_ident, ch) for ch in chunks]
+    try:
+        got = list(_chain_from_iterable_of_lists(results))
+    except BaseException as e:  # noqa: harness-level comparison of outcomes
+        if any(e is v for v in _EXC_VALUES):
+            return False  # a returned exception object was raised
+        raise
+    want = list(map(_ident, xs))
+    return len(got) == len(want) and all(g is w for g, w in zip(got, want))
